@@ -30,7 +30,7 @@ def run(ctx, report: Report) -> None:
     imod = src.mod('__init__')
 
     # ---- R1 ----------------------------------------------------------------------------------------------
-    r1 = report.rule('C03-R1', 'module-level wrappers forward every argument (partial evaluation with a recording compile())', floor=3)
+    r1 = report.rule('C03-R1', 'module-level wrappers forward every argument (partial evaluation with a recording compile())', floor=2)
     from .sem import wrappers_table
     wrappers_table(ctx, r1)
 
@@ -60,7 +60,7 @@ def run(ctx, report: Report) -> None:
     select_walk_table(ctx, r2)
 
     # ---- R3 ----------------------------------------------------------------------------------------------
-    r3 = report.rule('C03-R3', 'guards of the match relation', floor=2)
+    r3 = report.rule('C03-R3', 'guards of the match relation', floor=1)
     _, mfn = src.func('css_match.CSSMatch.match')
     el = mfn.args.args[1].arg
     for atom, val, what in ((f'self.is_doc({el})', True, 'the document object'),
@@ -89,7 +89,7 @@ def run(ctx, report: Report) -> None:
                          f'assert_valid_input raises {t}; the documented error for a non-Tag target is TypeError')
 
     # ---- R4 ----------------------------------------------------------------------------------------------
-    r4 = report.rule('C03-R4', 'matchers are scoped on the call target and built from the same fields', floor=4)
+    r4 = report.rule('C03-R4', 'matchers are scoped on the call target and built from the same fields', floor=3)
     from .sem import iframe_policy, soupsieve_methods_table
     from ..interp import Obj
     from ..tables import el_obj
@@ -110,7 +110,7 @@ def run(ctx, report: Report) -> None:
     identity_table(ctx, r3)
 
     # ---- R5 (the whole pipeline by interpretation, bounded) --------------------------------------------------------------
-    r5 = report.rule('C03-R5', 'select / iselect / select_one / limit / filter / closest agree with match() element by element (bounded)', floor=8)
+    r5 = report.rule('C03-R5', 'select / iselect / select_one / limit / filter / closest agree with match() element by element (bounded)', floor=5)
     from .e2ematch import api_consistency_table
     api_consistency_table(ctx, r5, deep=(ctx.tier == 'thorough'))
 
